@@ -78,3 +78,29 @@ def budget_for(nbytes: int) -> int:
     # zero-length PDS sub-elements and 2-byte TLVs; the vendored hexdump helper is not traced);
     # 100 lines per byte + 20000 leaves > 30x headroom for a slower but correct refactor
     return 20_000 + 100 * nbytes
+
+
+class WallLimit:
+    """wall-clock backstop only (no tracing) for code paths that have no step budget: raises
+    StepBudgetExceeded in the main thread when the block does not finish in time"""
+
+    def __init__(self, seconds: float = 20.0):
+        self.seconds = seconds
+        self._old = None
+
+    def _on_alarm(self, signum, frame):
+        where = f"{frame.f_code.co_name}:{frame.f_lineno}" if frame is not None else "?"
+        raise StepBudgetExceeded(f"{where} (wall clock: {self.seconds:.0f}s without finishing)")
+
+    def __enter__(self):
+        if threading.current_thread() is threading.main_thread():
+            self._old = signal.signal(signal.SIGALRM, self._on_alarm)
+            signal.setitimer(signal.ITIMER_REAL, self.seconds)
+        return self
+
+    def __exit__(self, *a):
+        if self._old is not None:
+            signal.setitimer(signal.ITIMER_REAL, 0)
+            signal.signal(signal.SIGALRM, self._old)
+            self._old = None
+        return False
